@@ -72,6 +72,14 @@ def _evaluate_isolated(args):
     return out, viols, dec.log
 
 
+def _trial(args):
+    check, wl, cfg, decisions, ctx = args
+    known = set(ctx.cache.store)
+    out, viols = check.evaluate(wl, cfg, Decisions(recorded=decisions), ctx)
+    delta = {k: v for k, v in ctx.cache.store.items() if k not in known}
+    return [report.key_str(x["key"]) for x in viols], delta, set(ctx.cache.impure)
+
+
 def make_job_fn(check):
     def job_fn(job):
         j = job["index"]
@@ -214,14 +222,17 @@ def minimise(check, v, budget_s=150.0):
         if time.time() - t0 > budget_s:
             return False
         try:
-            if getattr(check, "ISOLATE_RUNS", False):
-                # a run that leaks interpreter-global state must not contaminate the next trial
-                out, viols, _ = batch._isolated(_evaluate_isolated, (check, wl_ or state["wl"], cfg, Decisions(recorded=decisions), ctx_ or state["ctx"]), 600.0, arm_watchdog=False)
-            else:
-                out, viols = check.evaluate(wl_ or state["wl"], cfg, Decisions(recorded=decisions), ctx_ or state["ctx"])
+            # Every trial runs in its own forked process: a run that leaves process-level state behind
+            # (a poisoned cache, a warning filter) must not decide the outcome of the next trial - otherwise
+            # the minimiser "removes" the very step that caused the violation.  Task results computed by
+            # the trial are handed back so that later trials find them in the cache.
+            c = ctx_ or state["ctx"]
+            keys, delta, impure = batch._isolated(_trial, (check, wl_ or state["wl"], cfg, decisions, c), 900.0, arm_watchdog=False)
+            # (task results computed by a trial are NOT merged into the parent's cache: a result computed
+            # under poisoned process state would be served to later, clean trials)
         except Exception:
             return False
-        return any(report.key_str(x["key"]) == key for x in viols)
+        return key in keys
 
     cfg = dict(v["config"])
     dec = [list(x) for x in v["decisions"]]
@@ -314,6 +325,17 @@ def run_check(check, tier, replay=None):
     return conclude(check, tier, seed, results, timer, extra_coverage=extra)
 
 
+def _payload(prop, seed, v, cfg, dec, reproduced, occurrences):
+    return {
+        "property": prop, "clause": v["clause"], "key": v["key"], "engine": "simpool",
+        "verif_seed": seed, "run_seed": v.get("run_seed"), "minimised": reproduced,
+        "workload": v["workload"], "workload_shrunk": v.get("workload_shrunk", []), "config": cfg, "decisions": dec,
+        "original_decisions": len(v["decisions"]),
+        "detail": v["detail"], "expected": v.get("expected"), "observed": v.get("observed"),
+        "occurrences_in_batch": occurrences,
+    }
+
+
 def conclude(check, tier, seed, results, timer, extra_coverage=None):
     prop = check.PROP
     known = report.load_known(prop)
@@ -366,34 +388,37 @@ def conclude(check, tier, seed, results, timer, extra_coverage=None):
     exit_code = 0
     n_reported = 0
     harness_problem = False
+    unreproduced = []
     for ks, vs in sorted(new_by_key.items()):
         if n_reported >= 6:
             print(f"(further violation classes suppressed: {len(new_by_key) - n_reported})")
             break
-        v = min(vs, key=lambda x: (len(x["decisions"]), x["index"], x["variant"]))
-        try:
-            cfg, dec, reproduced = minimise(check, v)
-        except Exception as e:  # pragma: no cover
-            cfg, dec, reproduced = v["config"], v["decisions"], True
-            print(f"(minimiser failed: {type(e).__name__}: {e})", file=sys.stderr)
-        payload = {
-            "property": prop, "clause": v["clause"], "key": v["key"], "engine": "simpool",
-            "verif_seed": seed, "run_seed": v.get("run_seed"), "minimised": reproduced,
-            "workload": v["workload"], "workload_shrunk": v.get("workload_shrunk", []), "config": cfg, "decisions": dec,
-            "original_decisions": len(v["decisions"]),
-            "detail": v["detail"], "expected": v.get("expected"), "observed": v.get("observed"),
-            "occurrences_in_batch": len(vs),
-        }
-        path = report.write_replay(prop, seed, n_reported, payload)
-        ok, text = report.replay_in_fresh_interpreter(prop, path)
-        if ok:
-            print(f"VIOLATION property={prop} replay={path}")
-            print(f"  clause={v['clause']} key={ks}")
-            print(f"  {v['detail'][:300]}")
-            exit_code = 1
-        else:
+        # Candidates in order of simplicity.  A candidate whose replay does not reproduce in a fresh
+        # interpreter (its cause lies in state left behind by an *earlier* run of the same job - only
+        # possible when the code under test keeps process-level state) is set aside and the next one is
+        # tried; the class is reported as a VIOLATION only with a replay that does reproduce.
+        cands = sorted(vs, key=lambda x: (0 if (x["config"].get("decoy") or x["config"].get("prelude")) else 1, len(x["decisions"]), x["index"], x["variant"]))[:4]
+        reported = False
+        for ci, v in enumerate(cands):
+            try:
+                cfg, dec, reproduced = minimise(check, v)
+            except Exception as e:  # pragma: no cover
+                cfg, dec, reproduced = v["config"], v["decisions"], True
+                print(f"(minimiser failed: {type(e).__name__}: {e})", file=sys.stderr)
+            payload = _payload(prop, seed, v, cfg, dec, reproduced, len(vs))
+            path = report.write_replay(prop, seed, n_reported, payload)
+            ok, text = report.replay_in_fresh_interpreter(prop, path)
+            if ok:
+                print(f"VIOLATION property={prop} replay={path}")
+                print(f"  clause={v['clause']} key={ks}")
+                print(f"  {v['detail'][:300]}")
+                exit_code = 1
+                reported = True
+                break
+            unreproduced.append((ks, path, text))
+        if not reported:
             harness_problem = True
-            print(f"HARNESS-ERROR property={prop} replay {path} did not reproduce in a fresh interpreter:\n{text}", file=sys.stderr)
+            print(f"HARNESS-ERROR property={prop} no replay of violation class {ks} reproduced in a fresh interpreter (tried {len(cands)}):\n{unreproduced[-1][2]}", file=sys.stderr)
         n_reported += 1
     wall = timer.elapsed()
     coverage = {
@@ -417,6 +442,7 @@ def conclude(check, tier, seed, results, timer, extra_coverage=None):
         "functions_consuming_global_rng": sorted(impure),
         "known_findings_hit": {ks: c for ks, (rec, c) in known_hits.items()},
         "new_violation_classes": len(new_by_key),
+        "unreproduced_candidates": len(unreproduced),
         "components": {
             "real": ["pyimpspec (entry points, worker functions, Progress, circuits, data sets)", "numpy", "scipy", "lmfit", "statsmodels", "pandas"],
             "stub": ["multiprocessing.Pool (process creation, pipes, handler threads) -> simkit.simpool.SimPool", "wall clock seen by IMapIterator.next(timeout) -> virtual clock", "matplotlib.get_backend", "lmfit.minimize only when F4 fires"],
@@ -432,10 +458,8 @@ def conclude(check, tier, seed, results, timer, extra_coverage=None):
         coverage.update(extra_coverage)
     report.write_evidence(prop, tier, seed, coverage, wall, len(new_by_key), check.ASSUMPTIONS)
     if harness_problem and exit_code == 0:
-        return 2
-    if harness_problem:
-        return 2
-    return exit_code
+        return 2  # violations were seen but none could be replayed: no verdict
+    return exit_code  # 1 iff at least one violation class was reported with a replay that reproduces
 
 
 def run_replay(check, path):
